@@ -67,6 +67,12 @@ def request_st(draw, spec):
         inner = draw(st.sampled_from(behind + ["new-behind-link.gmi"]))
         path = "/" + "/".join(lk["p"].split("/")[1:]) + "/" + inner
         labels += ["through-link", "aim-outside"]
+        loops = [nd for nd in spec["nodes"] if nd["t"] == "link" and nd["to"] == "SELF"]
+        if loops and draw(st.booleans()):
+            # first into a symlink loop and back out again: '<loop>/../<link>/...'
+            lp = draw(st.sampled_from(loops))
+            path = "/" + "/".join(lp["p"].split("/")[1:]) + "/.." * len(lp["p"].split("/")[1:]) + path
+            labels.append("via-loop")
     else:
         path = draw(st.sampled_from(["/", "", "/.", "//", "/capsule", "/../capsule/x"]))
         labels.append("root-ish")
@@ -89,6 +95,8 @@ def case_st(draw, with_fault=True):
         spec["nodes"].append({"p": ROOT + "/" + draw(st.sampled_from(["shared", "sub-link", "x-out"])), "t": "link",
                               "to": draw(st.sampled_from(["outside", "capsule-secret", "capsule2", "outside/dir"])),
                               "abs": draw(st.booleans())})
+    if draw(st.integers(0, 3)) == 0:
+        spec["nodes"].append({"p": ROOT + "/" + draw(st.sampled_from(["loop", "again"])), "t": "link", "to": "SELF", "abs": False})
     cfg = {"tokens": draw(st.sampled_from(["none", "none", "one", "several", "blank", "blanks"])),
            "max_size": draw(st.sampled_from([64, None])),
            "types": draw(st.sampled_from([None, None, ["text/gemini", "text/plain"]])),
